@@ -296,6 +296,28 @@ def nodebug(spec, **quick):
 
 
 _SD = {"engine": "sysdata", "args": {}, "quick": {"exhaust-upto": 4, "samples": 6, "pre-samples": 3}, "thorough": {"exhaust-upto": 6, "samples": 30, "pre-samples": 10}}
+# ---- scale: stages hundreds of groups wide, hundreds of effective barriers / stages, groups whose
+# accumulated lists hold dozens of ids (index / counter / inline-buffer widths)
+def scale(profiles, quick=24, thorough=1500, **kw):
+    d = plan(profiles, quick=quick, thorough=thorough, **kw)
+    d["thorough"].pop("small-scope", None)
+    return d
+
+
+_SCALE = {
+    "C01": [scale("vwide,fat,fat,fat", quick=48)],
+    "C02": [scale("vwide,deep", quick=16), plan("phname", quick=300, thorough=6000)],
+    "C03": [scale("deep", quick=14)],
+    "C05": [scale("fat,vwide", quick=16)],
+    "C07": [scale("fat", quick=16)],
+    "C10": [scale("vwide,deep,fat", quick=30)],
+    "C18": [scale("vwide,deep,fat", quick=24), plan("phname", quick=200, thorough=4000)],
+    "C19": [scale("vwide,fat", quick=16), plan("phname", quick=200, thorough=4000)],
+    "C20": [scale("vwide,deep", quick=10), plan("phname", quick=200, thorough=4000)],
+}
+for _k, _v in _SCALE.items():
+    PROPS[_k]["engines"] = PROPS[_k]["engines"] + _v
+
 _NODEBUG = {
     "C01": [nodebug(plan("plan,funnel,batch", quick=150, thorough=3000)), nodebug(trace("flat,batch,funnel", quick=20, thorough=300))],
     "C02": [nodebug(plan("deps,plan,barriers", quick=150, thorough=3000)), nodebug(trace("deps,base", quick=12, thorough=200, **{"long-holds": True}))],
